@@ -364,6 +364,9 @@ func (e *c04env) roundTrip(rng *Rng, rows map[string][]*insts.InstType) {
 		f["sdst"] = sDstCodes[rng.Intn(len(sDstCodes))]
 		f["simm16"] = uint32(rng.Intn(65536))
 		expectCodes["dst"] = f["sdst"]
+		if d.op == 20 { // s_setreg_imm32_b32: SIMM32 follows the first dword
+			d.hasLit, d.literal = true, lit
+		}
 	case "sop1":
 		f["ssrc0"] = pickSrc(rng, false, true)
 		f["sdst"] = sDstCodes[rng.Intn(len(sDstCodes))]
@@ -526,6 +529,8 @@ func (e *c04env) roundTrip(rng *Rng, rows map[string][]*insts.InstType) {
 	case "sopk", "sopp":
 		if inst.SImm16 == nil || uint32(inst.SImm16.IntValue) != f["simm16"] {
 			bad("simm16 mismatch")
+		} else if fm == "sopk" && d.op == 20 && (inst.Src0 == nil || inst.Src0.OperandType != insts.LiteralConstant || inst.Src0.LiteralConstant != d.literal) {
+			bad("simm32 %x not kept", d.literal)
 		}
 	case "smem":
 		if inst.Imm != (f["imm"] == 1) || inst.GlobalLevelCoherent != (f["glc"] == 1) {
